@@ -69,6 +69,16 @@ FlatOK(shape, leaves, X, entry) ==
     /\ shape = "same"
     /\ \A i \in 1..Len(leaves) : LeafOK(leaves[i].p, leaves[i].t, leaves[i].c, X, entry)
 
+\* Transport: the body reaches the exporter as `wire` bytes ("plain" = the JSON text, "gzip" = the gzip-compressed JSON text)
+\* under a Content-Encoding header value `enc` ("" = no header).  The exporter can be expected to see the document when the
+\* declared encoding is one it decodes and matches the bytes; otherwise it may also export nothing of the body ("opaque":
+\* empty, or the hash of the whole body) - but never the body as received: every value outside the excluded paths must be
+\* replaced by its hash whatever the transport.
+Decodable(enc, wire) == (enc = "" /\ wire = "plain") \/ (enc = "gzip" /\ wire = "gzip")
+BodyOK(shape, leaves, X, entry, enc, wire) ==
+    \/ FlatOK(shape, leaves, X, entry)
+    \/ shape = "opaque" /\ ~Decodable(enc, wire)
+
 \* the reference result: what a leaf at p becomes
 Ref(p, X, entry) == IF MustKeep(p, X, entry) THEN "kept" ELSE "hidden"
 =============================================================================
